@@ -24,6 +24,9 @@ type EnvVar struct {
 	Sp  []string `json:"sp"`
 	Lo  []string `json:"lo"`
 	Val Val      `json:"val"`
+	// Foreign: the node-set consists of the nodes with these ids in ANOTHER tree built from the same document
+	// (a node-set selected from a second document of the same shape: same string-values, same Pos() numbers)
+	Foreign bool `json:"foreign,omitempty"`
 }
 type EnvFunc struct {
 	Sp   []string `json:"sp"`
